@@ -51,6 +51,6 @@ MANIFEST = dict(
          "and AES-CTR stream objects are snapshotted just before *_free and inspected inside the free() hook: no key-dependent word may survive and the raw "
          "key may not occur (AES-NI and OpenSSL paths). During the DH calls every buffer OpenSSL frees or reallocates is searched for the private exponent, "
          "the blinding value and the blinded exponent in both byte orders. Key files failing after the secret line must not release a block that still "
-         "holds the secret. All of it is repeated against a plain -O2 build of the library so that an optimised-away memset is visible.",
+         "holds the secret. All of it is repeated against a plain -O2 build of the library so that an optimised-away memset is visible. A sub 'first' runs each inspected call as the first library activity of a fresh process (incl. Init+Final with no update), and secrets contain blanks, tabs and arbitrary printable characters.",
     note="Trusted: the free()/realloc() hooks see every release made by library code and by OpenSSL, and (key files, ASan build) every release made by libc on the library's behalf; registers and stack slots are out of scope (as in the property).",
 )
